@@ -9,8 +9,8 @@ theorem inCoro_ret {s : State} {t : Nat} (h : inCoro s t = true) : s.ret t = Ret
   · simp only [Bool.and_eq_true, beq_iff_eq] at h; exact h.1
   · cases h
 
-theorem inv_stopDrop {c : Cfg} {s : State} {t : Nat} (h : Inv c s) (hpc : s.pc t = Pc.stopDrop) :
-    Inv c (stepStopDrop c s t).1 := by
+theorem inv_stopDrop {c : Cfg} {s : State} {t k : Nat} (h : Inv c s) (hpc : s.pc t = Pc.stopDrop) :
+    Inv c (stepStopDrop c s t k).1 := by
   have hex : s.exit = true := by
     cases hx : s.exit with
     | true => rfl
@@ -18,14 +18,25 @@ theorem inv_stopDrop {c : Cfg} {s : State} {t : Nat} (h : Inv c s) (hpc : s.pc t
   have htm : s.tmp t = [] := by
     have := h.s_tmp_pc t; grind
   unfold stepStopDrop
-  split
-  · rename_i j rest hdq
-    have hj : j ∈ s.dq t := by simp [hdq]
+  rcases pick_cases (s.dq t) k with ⟨hdq, hp⟩ | ⟨j, hj, hp⟩
+  · rw [hp]
+    dsimp only
+    split
+    · inv_step h
+    · unfold setPc
+      inv_step h
+  · rw [hp]
+    dsimp only
+    generalize hrest : (s.dq t).erase j = rest
     have hl : s.loc j = Loc.swapped t := (h.l_swap t j).1 hj
-    have hnd : (j :: rest).Nodup := hdq ▸ h.l_dqnd t
-    have hjr : j ∉ rest := (List.nodup_cons.1 hnd).1
-    have hrn : rest.Nodup := (List.nodup_cons.1 hnd).2
-    have hmem : ∀ x, x ∈ s.dq t ↔ x = j ∨ x ∈ rest := by intro x; simp [hdq]
+    have hnd0 := h.l_dqnd t
+    have hjr : j ∉ rest := by rw [← hrest]; exact fun hm => (hnd0.mem_erase_iff.1 hm).1 rfl
+    have hrn : rest.Nodup := by rw [← hrest]; exact hnd0.erase j
+    have hmem : ∀ x, x ∈ s.dq t ↔ x = j ∨ x ∈ rest := by
+      intro x; rw [← hrest, hnd0.mem_erase_iff]
+      by_cases hx : x = j
+      · subst hx; simp [hj]
+      · simp [hx]
     have hc := h.c_once j
     rw [hl] at hc
     simp only [reduceCtorEq, ↓reduceIte] at hc
@@ -72,11 +83,6 @@ theorem inv_stopDrop {c : Cfg} {s : State} {t : Nat} (h : Inv c s) (hpc : s.pc t
       · inv_step h
     · rename_i hk
       have hb := h.b_none j hk
-      inv_step h
-  · rename_i hdq
-    split
-    · inv_step h
-    · unfold setPc
       inv_step h
 
 theorem hasFut_dropKind {c : Cfg} {k : Kind} (h : hasFut k = true) :
